@@ -97,16 +97,31 @@ def get_widths2(seq: Iterable[object]) -> Dict[int, Tuple[float, Point]]:
         if isinstance(v, list):
             if r:
                 char1 = r[-1]
-                for i, (w, vx, vy) in enumerate(choplist(3, v)):
-                    widths[cast(int, char1) + i] = (w, (vx, vy))
+                if isinstance(char1, int):
+                    for i, (w, vx, vy) in enumerate(choplist(3, v)):
+                        if all(isinstance(x, (int, float)) for x in (w, vx, vy)):
+                            widths[char1 + i] = (w, (vx, vy))
+                        else:
+                            log.warning(
+                                f"Skipping invalid vertical metrics {(w, vx, vy)!r} because they are not numbers"
+                            )
+                else:
+                    log.warning(
+                        f"Skipping invalid vertical metrics after {char1} because it is not an int"
+                    )
                 r = []
         elif isinstance(v, (int, float)):  # == utils.isnumber(v)
             r.append(v)
             if len(r) == 5:
                 (char1, char2, w, vx, vy) = r
-                # CIDs do not exceed 65535
-                for i in range(max(cast(int, char1), 0), min(cast(int, char2), 65535) + 1):
-                    widths[i] = (w, (vx, vy))
+                if isinstance(char1, int) and isinstance(char2, int):
+                    # CIDs do not exceed 65535
+                    for i in range(max(char1, 0), min(char2, 65535) + 1):
+                        widths[i] = (w, (vx, vy))
+                else:
+                    log.warning(
+                        f"Skipping invalid vertical metrics for {char1} to {char2} because either of them is not an int"
+                    )
                 r = []
     return widths
 
@@ -1165,7 +1180,11 @@ class PDFCIDFont(PDFFont):
             # writing mode: vertical
             widths2 = get_widths2(list_value(spec.get("W2", [])))
             self.disps = {cid: (vx, vy) for (cid, (_, (vx, vy))) in widths2.items()}
-            (vy, w) = resolve1(spec.get("DW2", [880, -1000]))
+            dw2 = [resolve1(v) for v in list_value(spec.get("DW2", [880, -1000]))]
+            if len(dw2) != 2 or not all(isinstance(v, (int, float)) for v in dw2):
+                log.warning(f"Ignoring /DW2 {dw2!r}: it is not an array of two numbers")
+                dw2 = [880, -1000]
+            (vy, w) = dw2
             self.default_disp = (None, vy)
             widths: Dict[Union[str, int], float] = {
                 cid: w for (cid, (w, _)) in widths2.items()
